@@ -121,6 +121,46 @@ pub struct Links(Vec<Entity>);
 #[derive(Component, Clone, Copy, Debug)]
 pub struct Noise(pub u32);
 
+/// Client-side command marker: entities carrying it keep every received value of `A` in `HistA`,
+/// including values older than the newest one (`need_history`).
+#[derive(Component, Clone, Copy, Debug)]
+pub struct Pred;
+
+/// (message tick, version) of every `A` value written through the marker functions.
+#[derive(Component, Clone, Debug, Default)]
+pub struct HistA(pub Vec<(u32, u32)>);
+
+fn write_hist_a(
+    ctx: &mut bevy_replicon::shared::replication::replication_registry::ctx::WriteCtx,
+    rule_fns: &RuleFns<A>,
+    entity: &mut bevy_replicon::shared::replication::deferred_entity::DeferredEntity,
+    message: &mut bytes::Bytes,
+) -> Result<()> {
+    let a: A = rule_fns.deserialize(ctx, message)?;
+    let tick = ctx.message_tick.get();
+    // The component itself follows the newest tick only, like a game that renders the latest state.
+    let newest = entity
+        .get::<bevy_replicon::client::confirm_history::ConfirmHistory>()
+        .map(|h| h.last_tick().get() <= tick)
+        .unwrap_or(true);
+    if let Some(mut h) = entity.get_mut::<HistA>() {
+        h.0.push((tick, a.0.ver()));
+    } else {
+        entity.insert(HistA(vec![(tick, a.0.ver())]));
+    }
+    if newest {
+        entity.insert(a);
+    }
+    Ok(())
+}
+
+fn remove_hist_a(
+    _ctx: &mut bevy_replicon::shared::replication::replication_registry::ctx::RemoveCtx,
+    entity: &mut bevy_replicon::shared::replication::deferred_entity::DeferredEntity,
+) {
+    entity.remove::<HistA>().remove::<A>();
+}
+
 /// Value of one component as the oracles compare it.
 #[derive(Clone, Copy, PartialEq, Eq, Debug, Serialize, Deserialize, PartialOrd, Ord)]
 pub enum Val {
@@ -605,6 +645,9 @@ pub struct AppCfg {
     pub sync_related: bool,
     /// Registration-order variant (C14): 0 = the standard pool.
     pub proto_variant: u32,
+    /// Register the history marker `Pred` (custom write / remove functions for `A`, old mutations wanted).
+    #[serde(default)]
+    pub history: bool,
 }
 
 impl Default for AppCfg {
@@ -619,6 +662,7 @@ impl Default for AppCfg {
             track: false,
             sync_related: false,
             proto_variant: 0,
+            history: false,
         }
     }
 }
@@ -721,6 +765,11 @@ pub fn register_pool(app: &mut App, cfg: &AppCfg, role: Role) {
     }
     if cfg.track {
         app.track_mutate_messages();
+    }
+    if cfg.history {
+        use bevy_replicon::shared::replication::command_markers::MarkerConfig;
+        app.register_marker_with::<Pred>(MarkerConfig { need_history: true, ..Default::default() })
+            .set_marker_fns::<Pred, A>(write_hist_a, remove_hist_a);
     }
     app.add_mapped_server_event::<SeOrd>(Channel::Ordered)
         .add_server_event::<SeUnord>(Channel::Unordered)
